@@ -388,6 +388,7 @@ class Contract:
     consts: Dict[str, Any] = field(default_factory=dict)
     self_fields: Dict[str, str] = field(default_factory=dict)  # for methods: field name -> type
     extra_inputs: Dict[str, str] = field(default_factory=dict)  # free (closure/global) variables treated as symbolic inputs
+    fragment: Optional[Tuple[str, str]] = None  # verify only the consecutive statements from/to these anchors (header texts)
     setup: Optional[Callable] = None  # setup(engine, state): bind extra environment entries after the inputs exist
     drop_decorators: bool = True
     float_as_real: bool = False
@@ -591,7 +592,7 @@ class Engine:
             st.env[name] = SFunc(name, (lambda f, rtp: lambda eng, s, args, kw, node: from_z3(f(*[to_z3(a) for a in args]), rtp))(f, rtp))
         # parameters
         a = self.fn.args
-        params = [x for x in a.posonlyargs + a.args + a.kwonlyargs]
+        params = [x for x in a.posonlyargs + a.args + a.kwonlyargs] if c.fragment is None else []
         for p in params:
             tstr = c.types.get(p.arg)
             if p.arg == 'self' and tstr is None:
@@ -629,7 +630,12 @@ class Engine:
             st.assume(self.ev_bool_str(r, st))
         # vacuity: the precondition is satisfiable
         self.ctx.add(core.satisfiable('%s/vacuity/requires-satisfiable' % self.label, list(st.pc) or [z3.BoolVal(True)]))
-        outs = self.exec_block(self.fn.body, st)
+        body = self.fn.body
+        if c.fragment is not None:
+            body = self._find_fragment(self.fn.body, c.fragment)
+            if body is None:
+                raise Undecided('anchor-moved: fragment %r .. %r not found as consecutive statements of one block in %s' % (c.fragment[0], c.fragment[1], c.qualname))
+        outs = self.exec_block(body, st)
         reach = []
         for s2, oc in outs:
             if oc[0] in ('next', 'return'):
@@ -652,6 +658,33 @@ class Engine:
         for name in self.unmodelled:
             self.ctx.assume('%s: unmodelled call %s (result havocked)' % (self.label, name))
         return self
+
+    def _find_fragment(self, stmts, frag):
+        texts = [_header_text(x) for x in stmts]
+        starts = [i for i, t in enumerate(texts) if _anchor_match(frag[0], t)]
+        if starts:
+            i = starts[0]
+            if isinstance(frag[1], int):
+                if i + frag[1] <= len(stmts):
+                    return stmts[i: i + frag[1]]
+            else:
+                ends = [j for j in range(i, len(texts)) if _anchor_match(frag[1], texts[j])]
+                if ends:
+                    return stmts[i: ends[0] + 1]
+        for x in stmts:
+            if isinstance(x, (ast.FunctionDef, ast.AsyncFunctionDef, ast.ClassDef)):
+                continue
+            for f in ('body', 'orelse', 'finalbody'):
+                sub = getattr(x, f, None)
+                if sub:
+                    r = self._find_fragment(sub, frag)
+                    if r is not None:
+                        return r
+            for h in getattr(x, 'handlers', []) or []:
+                r = self._find_fragment(h.body, frag)
+                if r is not None:
+                    return r
+        return None
 
     def at_return(self, st: State, res):
         env = st.env
@@ -715,7 +748,7 @@ class Engine:
         for g in self.c.ghosts:
             if txt is None:
                 txt = ast.unparse(node) if not isinstance(node, (ast.For, ast.While, ast.If, ast.Try, ast.With, ast.AsyncWith, ast.AsyncFor)) else _header_text(node)
-            if g.anchor == txt:
+            if _anchor_match(g.anchor, txt):
                 (before if g.where == 'before' else after).append(g)
         if not before and not after:
             return self.exec_stmt(node, st)
@@ -890,6 +923,9 @@ class Engine:
         raise Undecided('assignment target %s' % ast.unparse(target))
 
     def store(self, cont, idx, v, st, node):
+        if isinstance(cont, SRecord) and isinstance(idx, str):
+            cont.fields[idx] = v
+            return cont
         if isinstance(cont, SList):
             et = cont.et or type_of_value(v)
             arr = cont.arr if cont.arr is not None else z3.Const(fresh_name('arr'), z3.ArraySort(z3.IntSort(), sort_of(et)))
@@ -913,9 +949,13 @@ class Engine:
     # ---- loops
     def exec_loop(self, node, st: State):
         ordinal = self.loop_ordinals[id(node)]
-        spec = self.c.loops.get(ordinal)
+        spec = self.c.loops.get(ordinal) or self.c.loops.get(_header_text(node))
         if spec is None:
-            raise Undecided('loop #%d of %s has no invariant' % (ordinal, self.c.qualname))
+            for k_, v_ in self.c.loops.items():
+                if isinstance(k_, str) and _anchor_match(k_, _header_text(node)):
+                    spec = v_
+        if spec is None:
+            raise Undecided('loop #%d (%s) of %s has no invariant' % (ordinal, _header_text(node), self.c.qualname))
         is_for = isinstance(node, ast.For)
         L = None
         if is_for:
@@ -1543,6 +1583,10 @@ class Engine:
         return self.index(cont, idx, st, node)
 
     def index(self, cont, idx, st, node=None):
+        if isinstance(cont, SRecord) and isinstance(idx, str):
+            if idx in cont.fields:
+                return cont.fields[idx]
+            raise PyRaise(SExc('KeyError'))
         if isinstance(cont, dict):
             if isinstance(idx, (str, int)) or idx is None:
                 if idx in cont:
@@ -1864,6 +1908,14 @@ class Engine:
 
 # ---------------------------------------------------------------------------------------------
 # helpers
+
+
+def _anchor_match(anchor, text):
+    if isinstance(anchor, str) and anchor.startswith('re:'):
+        import re as _re
+
+        return _re.search(anchor[3:], text) is not None
+    return anchor == text
 
 
 def _same_value(a, b):
